@@ -385,7 +385,7 @@ def avx2_requests(rng, n):
         ctl = rng.randrange(10)
         add('shuffle', a, [ctl], lambda p, a=a, ctl=ctl: p.out(p.f('shuffle_' + SHUFFLES[ctl])(p.vec(a))))
         a, b = fes(4), fes(4)
-        ln = rng.randrange(9)
+        ln = rng.randrange(8) if rng.random() < 0.9 else 8
 
         def blend(p, a=a, b=b, ln=ln):
             name = 'blend_' + LANES[ln]
@@ -447,6 +447,200 @@ def run_cpu(gen, vecmod, cfg, reqs):
     return fails
 
 
+# ---------------------------------------------------------------------------------------------
+# IFMA: 20 lanes, vector k = limb k (radix 2^51) of (A, B, C, D)
+# ---------------------------------------------------------------------------------------------
+
+def ipos(e, k):
+    return 4 * k + e
+
+
+def idecode(lanes):
+    return [sum(lanes[ipos(e, k)] << (51 * k) for k in range(5)) for e in range(4)]
+
+
+def ielem(lanes, e):
+    return [lanes[ipos(e, k)] for k in range(5)]
+
+
+IFMA_LANES = {0: 'C', 1: 'D', 2: 'AB', 3: 'AC', 5: 'AD', 8: 'BCD'}
+P16_51 = [36028797018963664] + [36028797018963952] * 4
+
+
+def ifma_checks(progs):
+    C = []
+
+    def chk(item, gen, edges, oracle, contract):
+        C.append((item, gen, edges, oracle, contract))
+
+    def modp(v):
+        return [x % P for x in v]
+
+    def rv(rng, bd):
+        """20 lanes with per-limb exclusive bounds bd[k]"""
+        out = [0] * 20
+        for e in range(4):
+            for k in range(5):
+                out[ipos(e, k)] = sc.rnd_limb(rng, bd[k])
+        return out
+
+    def ev(bd):
+        z = [0] * 20
+        m = [0] * 20
+        for e in range(4):
+            for k in range(5):
+                m[ipos(e, k)] = bd[k] - 1
+        out = [z, m]
+        for k in range(5):
+            v = [0] * 20
+            for e in range(4):
+                v[ipos(e, k)] = bd[k] - 1
+            out.append(v)
+        return out
+    U64 = [2 ** 64] * 5
+    RED = [2 ** 51 + 2 ** 18] * 5
+    B54 = [2 ** 54] * 5
+    NEGB = [x + 1 for x in P16_51]
+
+    chk('new', lambda rng: [sc.rnd_limb(rng, 2 ** 64) for _ in range(20)], [],
+        lambda i, o: None if o == [i[5 * e + k] for k in range(5) for e in range(4)] else 'not the transposition',
+        'any u64 limbs')
+    chk('split', lambda rng: [sc.rnd_limb(rng, 2 ** 64) for _ in range(20)], [],
+        lambda i, o: None if o == [i[ipos(e, k)] for e in range(4) for k in range(5)] else 'not the transposition',
+        'any u64 lanes')
+    chk('unreduce', lambda rng: rv(rng, U64), [], lambda i, o: None if o == i else 'not the identity', 'any')
+
+    def o_neg(i, o):
+        return None if modp(idecode(o)) == [(-x) % P for x in idecode(i)] else 'value mismatch'
+    chk('negate_lazy', lambda rng: rv(rng, NEGB), ev(NEGB), o_neg, 'limbs <= 16p limbwise')
+    chk('neg', lambda rng: rv(rng, RED), ev(RED), o_neg, 'reduced limbs (< 2^51 + 2^18)')
+
+    def o_ds(i, o):
+        a, b, c, d = idecode(i)
+        return None if modp(idecode(o)) == [(b - a) % P, (a + b) % P, (d - c) % P, (c + d) % P] else 'value mismatch'
+    chk('diff_sum', lambda rng: rv(rng, B54), ev(B54), o_ds, 'limbs < 2^54')
+    chk('add', lambda rng: rv(rng, [2 ** 63] * 5) + rv(rng, [2 ** 63] * 5), [],
+        lambda i, o: None if o == [x + y for x, y in zip(i[:20], i[20:])] else 'not the lane-wise sum',
+        'limbs < 2^63')
+
+    def o_red(i, o):
+        if modp(idecode(o)) != modp(idecode(i)):
+            return 'value not preserved'
+        for e in range(4):
+            l = ielem(o, e)
+            if l[0] >= 2 ** 51 + 19 * 2 ** 13 or any(x >= 2 ** 51 + 2 ** 13 for x in l[1:]):
+                return 'result limbs not reduced'
+        return None
+    chk('reduce', lambda rng: rv(rng, U64), ev(U64), o_red, 'any u64 lanes')
+
+    def o_mul(i, o):
+        x, y = idecode(i[:20]), idecode(i[20:])
+        return None if modp(idecode(o)) == [a * b % P for a, b in zip(x, y)] else 'value mismatch'
+    chk('mul', lambda rng: rv(rng, RED) + rv(rng, RED), [a + b for a in ev(RED) for b in ev(RED)], o_mul,
+        'reduced limbs (< 2^51 + 2^18)')
+    chk('square', lambda rng: rv(rng, RED), ev(RED),
+        lambda i, o: None if modp(idecode(o)) == [a * a % P for a in idecode(i)] else 'value mismatch',
+        'reduced limbs (< 2^51 + 2^18)')
+
+    def o_mc(i, o):
+        v = idecode(i[:20])
+        return None if modp(idecode(o)) == [v[e] * i[20 + e] % P for e in range(4)] else 'value mismatch'
+    chk('mul_consts', lambda rng: rv(rng, RED) + [sc.rnd_limb(rng, 2 ** 32) for _ in range(4)],
+        [a + [2 ** 32 - 1] * 4 for a in ev(RED)], o_mc, 'reduced limbs, any u32 constants')
+
+    def gen_sel(rng):
+        return rv(rng, U64) + rv(rng, U64) + [rng.randrange(2)]
+
+    def o_sel(i, o):
+        return None if o == (i[20:40] if i[40] else i[:20]) else 'selection mismatch'
+    chk('conditional_select', gen_sel, [], o_sel, 'any lanes, choice in {0,1}')
+    chk('conditional_assign', gen_sel, [], o_sel, 'any lanes, choice in {0,1}')
+    for name in progs:
+        base = name[len('reduced_'):] if name.startswith('reduced_') else name
+        if base.startswith('shuffle_'):
+            pat = base[len('shuffle_'):]
+
+            def o_sh(i, o, pat=pat):
+                for idx, src in enumerate(pat):
+                    if ielem(o, idx) != ielem(i, ELEMS.index(src)):
+                        return 'element %s of the result is not element %s of the input' % (ELEMS[idx], src)
+                return None
+            chk(name, lambda rng: rv(rng, U64), [], o_sh, 'any lanes')
+        if base.startswith('blend_'):
+            sel = base[len('blend_'):]
+
+            def o_bl(i, o, sel=sel):
+                for e in range(4):
+                    src = i[20:] if ELEMS[e] in sel else i[:20]
+                    if ielem(o, e) != ielem(src, e):
+                        return 'element %s taken from the wrong vector' % ELEMS[e]
+                return None
+            chk(name, lambda rng: rv(rng, U64) + rv(rng, U64), [], o_bl, 'any lanes')
+    return C
+
+
+def ifma_requests(rng, n):
+    reqs = []
+
+    def fes(k):
+        return [rand_fe_bytes(rng) for _ in range(k)]
+
+    def add(op, args_b, extra, fn):
+        line = 'vfe.ifma.%s %s' % (op, ' '.join(hexb(b) for b in args_b))
+        if extra:
+            line += ' ' + ' '.join(str(x) for x in extra)
+        reqs.append((line, fn))
+
+    def ap(p, name, v):
+        return None if v is None else p.f(name)(v)
+
+    def red(p, a):
+        return ap(p, 'reduce', p.vec(a))
+
+    def cat(x, y):
+        return None if x is None or y is None else x + y
+    for _ in range(n):
+        a = fes(4)
+        add('roundtrip', a, [], lambda p, a=a: p.out(p.vec(a)))
+        a, b = fes(4), fes(4)
+        add('mul', a + b, [], lambda p, a=a, b=b: p.out(ap(p, 'mul', cat(red(p, a), red(p, b)))))
+        a = fes(4)
+        add('square', a, [], lambda p, a=a: p.out(ap(p, 'square', red(p, a))))
+        a = fes(4)
+        add('neg', a, [], lambda p, a=a: p.out(ap(p, 'unreduce', ap(p, 'neg', red(p, a)))))
+        a = fes(4)
+        add('reduce', a, [], lambda p, a=a: p.out(ap(p, 'unreduce', red(p, a))))
+        a = fes(4)
+        add('negate_lazy', a, [], lambda p, a=a: p.out(ap(p, 'negate_lazy', p.vec(a))))
+        a, b = fes(4), fes(4)
+        add('add', a + b, [], lambda p, a=a, b=b: p.out(ap(p, 'add', cat(p.vec(a), p.vec(b)))))
+        a, b = fes(4), fes(4)
+        add('sub', a + b, [], lambda p, a=a, b=b: p.out(
+            ap(p, 'add', cat(p.vec(a), ap(p, 'unreduce', ap(p, 'neg', red(p, b)))))))
+        a = fes(4)
+        add('diff_sum', a, [], lambda p, a=a: p.out(ap(p, 'diff_sum', p.vec(a))))
+        a = fes(4)
+        ctl = rng.randrange(10)
+        add('shuffle', a, [ctl], lambda p, a=a, ctl=ctl: p.out(ap(p, 'shuffle_' + SHUFFLES[ctl], p.vec(a))))
+        a, b = fes(4), fes(4)
+        ln = rng.choice(sorted(IFMA_LANES)) if rng.random() < 0.9 else rng.randrange(9)
+
+        def blend(p, a=a, b=b, ln=ln):
+            if ln not in IFMA_LANES:
+                return 'skip'
+            return p.out(ap(p, 'blend_' + IFMA_LANES[ln], cat(p.vec(a), p.vec(b))))
+        add('blend', a + b, [ln], blend)
+        a = fes(4)
+        ks = [sc.rnd_limb(rng, 2 ** 32) if rng.random() < 0.5 else rng.choice([121666, 121665, 243332, 243330, 1, 0])
+              for _ in range(4)]
+        add('mul_consts', a, ks, lambda p, a=a, ks=ks: p.out(ap(p, 'mul_consts', cat(red(p, a), ks))))
+        a, b = fes(4), fes(4)
+        c = rng.randrange(2)
+        add('cselect', a + b, [c], lambda p, a=a, b=b, c=c: p.out(
+            ap(p, 'unreduce', ap(p, 'conditional_select', cat(cat(red(p, a), red(p, b)), [c])))))
+    return reqs
+
+
 def run_vec(gen, n, seed, only, cpu, ncpu):
     fails = 0
     p = os.path.join(gen, 'Avx2Field.lean')
@@ -459,5 +653,16 @@ def run_vec(gen, n, seed, only, cpu, ncpu):
             fails += run_cpu(gen, 'Avx2Field', 'simd', avx2_requests(random.Random('cpu.avx2.%d' % seed), ncpu))
     else:
         print('Avx2Field.lean missing')
+        fails += 1
+    p = os.path.join(gen, 'IfmaField.lean')
+    if os.path.exists(p):
+        progs = sc.parse_lean_module(p)
+        print('--- IfmaField (value level: 20 lanes = limbs 0..4 of A,B,C,D in radix 2^51)')
+        fails += run_value_checks('IfmaField', progs, ifma_checks(progs), n, seed, only)
+        if cpu:
+            print('--- IfmaField vs the CPU (driver avx512/release, ops vfe.ifma.*)')
+            fails += run_cpu(gen, 'IfmaField', 'avx512', ifma_requests(random.Random('cpu.ifma.%d' % seed), ncpu))
+    else:
+        print('IfmaField.lean missing')
         fails += 1
     return fails
